@@ -364,6 +364,10 @@ def time_fixture_contract():
     cleanups[0]()
     check('fixture/cleanup-clears-the-override',
           T.utcnow.override_time is None)
+    # the fixture can be set up again: it overrides to the SAME instant
+    fx.setUp()
+    check('fixture/second-setup-uses-the-original-instant',
+          T.utcnow() is now)
 
 
 @bounded('C12', targets=[(TU, 'normalize_time'), (TU, 'is_older_than'),
@@ -475,6 +479,12 @@ def real_datetime_family():
         finally:
             fx.cleanUp()
         check('dt/cleanup-clears-override', T.utcnow.override_time is None)
+        fx.setUp()
+        try:
+            check('dt/fixture-reuse-overrides-to-the-same-instant',
+                  T.utcnow() == now, detail=str(now))
+        finally:
+            fx.cleanUp()
         for x in (n, n.replace(tzinfo=UTC),
                   n.replace(tzinfo=zoneinfo.ZoneInfo('UTC'))):
             y = T.unmarshall_time(T.marshall_now(x))
